@@ -686,6 +686,20 @@ class BaseSection(base.Sectionable):
             if mine is not None:
                 mine.merge_check(obj, strict)
 
+    def _merge_name_check(self, section):
+        """
+        Child Sections are merged by name and type, but sibling names are unique:
+        a source child named like a destination child of another type can neither
+        be merged nor added. Raises a ValueError before anything is changed.
+        """
+        for obj in section.sections:
+            mine = self.contains(obj)
+            if mine is not None:
+                mine._merge_name_check(obj)
+            elif obj.name in self._sections:
+                raise ValueError("odml.Section.merge: child Section '%s' exists in src and "
+                                 "dest with different types!" % obj.name)
+
     def merge(self, section=None, strict=True):
         """
         Merges this section with another *section*.
@@ -712,6 +726,7 @@ class BaseSection(base.Sectionable):
         # its children can be merged with self and its children since
         # there is no rollback in case of a downstream merge error.
         self.merge_check(section, strict)
+        self._merge_name_check(section)
 
         if self.definition is None and section.definition is not None:
             self.definition = section.definition
